@@ -698,7 +698,7 @@ func runC17(c *checker, r *rng.R) {
 		return
 	}
 	corpusDir(c, *corpus)
-	n := 420
+	n := 1200
 	if *tier == "thorough" {
 		n = 9000
 	}
